@@ -3,6 +3,7 @@ import HpxVerif.Props.C15
 import HpxVerif.Lemmas.ConeReal
 import HpxVerif.Props.C16
 import HpxVerif.Lemmas.CellExtent4
+import HpxVerif.Lemmas.EConeEq3
 
 set_option autoImplicit false   -- an unknown identifier in a statement is an error, never a new variable
 
@@ -107,5 +108,26 @@ theorem h1_equatorial (cfg : Cfg) (lon lat r : ℝ) (hA : |lat| + r < tl) (ds ta
 
 
 end EquatorialGeometry
+
+
+/-! ## full flags are truthful in the equatorial region for EVERY starting depth (0 and 1 included) -/
+
+section EquatorialEveryStart
+open Hpx Hpx.Hash Hpx.C2V Hpx.C2VReal Hpx.Proj Hpx.Cover Hpx.CellReal Hpx.EnvelopeReal Hpx.TopoLift Hpx.CellExtent Hpx.EConeEq Hpx.Sph Hpx.Bmoc Real
+
+/-- **`cone_full_inside_equatorial_gen`** (ℝ, release profile): `CellExtent.cone_full_inside_equatorial` for EVERY starting
+    depth `ds ≤ target ≤ 29` -/
+theorem cone_full_inside_equatorial_gen (cfg : Cfg) (lon lat r : ℝ) (hA : |lat| + r < tl) (ds target : ℕ)
+    (hdt : ds ≤ target) (ht : target ≤ 29) (dists : List ℝ)
+    (hdists : largestC2VsWithRadius false ds (target + 1) lon lat r = some dists) (fuel root : ℕ)
+    (out : List Cell)
+    (h : coverRec target (coneClassifier (α := ℝ) cfg lon lat (Num.cos lat) (dists.map (toShsMinMax r))) fuel ds root 0
+      = some out)
+    (c : Cell) (hc : c ∈ out) (hf : c.full = true) (q : ℝ × ℝ) (hq : InCellEq c.depth c.hash q) :
+    adist (lon, lat) q < r :=
+  Hpx.EConeEq.cone_full_inside_equatorial_gen cfg lon lat r hA ds target hdt ht dists hdists fuel root out h c hc hf q hq
+
+
+end EquatorialEveryStart
 
 end Hpx.C06
